@@ -523,8 +523,8 @@ impl FdtInstance {
             fec_instance_id: self.fec_oti_fec_instance_id.unwrap_or(0) as u16,
             maximum_source_block_length: self.fec_oti_maximum_source_block_length.unwrap() as u32,
             encoding_symbol_length: self.fec_oti_encoding_symbol_length.unwrap() as u16,
-            max_number_of_parity_symbols: (fec_oti_max_number_of_encoding_symbols
-                - self.fec_oti_maximum_source_block_length.unwrap())
+            max_number_of_parity_symbols: fec_oti_max_number_of_encoding_symbols
+                .saturating_sub(self.fec_oti_maximum_source_block_length.unwrap())
                 as u32,
             scheme_specific,
             inband_fti: false,
@@ -610,8 +610,8 @@ impl File {
             fec_instance_id: self.fec_oti_fec_instance_id.unwrap_or(0) as u16,
             maximum_source_block_length: self.fec_oti_maximum_source_block_length.unwrap() as u32,
             encoding_symbol_length: self.fec_oti_encoding_symbol_length.unwrap() as u16,
-            max_number_of_parity_symbols: (fec_oti_max_number_of_encoding_symbols
-                - self.fec_oti_maximum_source_block_length.unwrap())
+            max_number_of_parity_symbols: fec_oti_max_number_of_encoding_symbols
+                .saturating_sub(self.fec_oti_maximum_source_block_length.unwrap())
                 as u32,
             scheme_specific,
             inband_fti: false,
